@@ -12,6 +12,10 @@ changes.
 (iii) composition with the dispatcher: on every dispatcher exit that
 returns the frame to the bus without the group program only the index byte
 changes (re-checked here on the real dispatcher bytecode).
+(iv) histories: bounded model checking of the dispatcher summary over all
+deliver / lose / inject sequences from an empty network and any counter: a
+frame whose write datagrams were enabled by the group program is never
+returned to the bus by the dispatcher alone.
 """
 import struct
 
@@ -283,6 +287,49 @@ def dispatcher_composition(q, res):
     return wa
 
 
+def dispatcher_histories(q, res, depth):
+    """(iv): over all histories (deliver / lose / inject, any order) from an
+    empty network and any counter value: a frame whose write datagrams the
+    group program has enabled never goes back to the bus without the group
+    program having run on it in that pass (its outputs would be those of an
+    earlier pass)"""
+    from z3 import Or as zOr
+    tmp = dict(violations=[], replayed=0)
+    with c22.ownership_workaround():
+        e, code, maps = c22.build_dispatcher()
+    for g in (0, 63):
+        res.setdefault("states", 0)
+        res.setdefault("transitions", 0)
+        B = c22.history_bmc(e, code, maps, q, res, depth, True, g)
+        res["obligations"] += 1
+        r, m = q.check(*B["cons"], zOr(*B["stale"]))
+        name = (f"registered group {g}: a frame with enabled write datagrams "
+                f"is never returned to the bus without the group program "
+                f"(depth {depth})")
+        if r == "unsat":
+            res["discharged"] += 1
+        elif r == "unknown":
+            res["undecided"] += 1
+            res["undecided_list"].append(name)
+        else:
+            acts = c22.decode_trace(m, B["tv"])
+            c0 = m.eval(BitVec("c0", 32), model_completion=True).as_long()
+            worst, log = c22.replay_history(code, maps, e, c0, g, True, acts)
+            res["replayed"] += 1
+            if not any("TX-of-active-frame" in l for l in log):
+                res["errors"].append(f"{name}: counterexample did not "
+                                     "reproduce on the concrete interpreter")
+                continue
+            res["violations"].append(dict(
+                signature="C21|history|stale outputs returned to the bus",
+                what=f"{name} fails from counter {c0}: " + " ".join(log),
+                witness=dict(counter=c0, group=g, actions=acts,
+                             replay_log=log), replay=dict(kind="history")))
+        r, _ = q.check(*B["cons"], UGE(B["deliveries"], 3))
+        res["vacuity"].append((f"group {g}: histories with >= 3 deliveries "
+                               "exist", r == "sat"))
+
+
 def main(tier, replay_file=None):
     ck = common.Check(
         "C21", tier, "model_checking", FUNCTIONS,
@@ -318,9 +365,17 @@ def main(tier, replay_file=None):
         except EngineError as ex:
             res["errors"].append(f"{lay[0]}: engine: {ex}")
     wa = dispatcher_composition(q, res)
+    try:
+        q2 = common.Q(rlimit=400_000_000, timeout_ms=600_000, fallback=False)
+        dispatcher_histories(q2, res, 14 if tier == "quick" else 24)
+        res["queries"] = res.get("queries", 0) + q2.queries
+        res["solver_s"] = res.get("solver_s", 0.0) + q2.solver_s
+    except EngineError as ex:
+        res["errors"].append(f"dispatcher histories: engine: {ex}")
     if wa:
         ck.assumptions.append("HARNESS WORKAROUND in force for the dispatcher "
                               "part (see C22): save_registers ownership")
-    res["queries"], res["solver_s"] = q.queries, q.solver_s
+    res["queries"] = res.get("queries", 0) + q.queries
+    res["solver_s"] = res.get("solver_s", 0.0) + q.solver_s
     ck.add(res)
     return ck.finish()
